@@ -100,7 +100,11 @@ func DriveHeap(r *rec.Rec, rng *rand.Rand, run, ops int, variant string) {
 // Contains / Priority on 12 keys and 6 priorities, queues built from initial lists with duplicate
 // keys; variant "iter": up to three live iterators interleaved with the mutations.
 func DrivePQ(r *rec.Rec, rng *rand.Rand, run, ops int, variant string) {
-	const K = 12
+	K, P := 12, 6
+	big := variant == "big" // larger heaps (7-24 keys, 9 priorities), removals of inner keys followed by pops
+	if big {
+		K, P = 24, 9
+	}
 	cmp := run%2 == 1
 	var q xheap.PriorityQueue[int, int]
 	its := map[int]iterator.Iterator[int]{}
@@ -126,7 +130,7 @@ func DrivePQ(r *rec.Rec, rng *rand.Rand, run, ops int, variant string) {
 	var init []xheap.KP[int, int]
 	initArg := [][]int{}
 	for i := 0; i < n0; i++ {
-		kp := xheap.KP[int, int]{K: 1 + rng.Intn(K), P: 1 + rng.Intn(6)}
+		kp := xheap.KP[int, int]{K: 1 + rng.Intn(K), P: 1 + rng.Intn(P)}
 		init = append(init, kp)
 		initArg = append(initArg, []int{kp.K, kp.P})
 	}
@@ -139,6 +143,31 @@ func DrivePQ(r *rec.Rec, rng *rand.Rand, run, ops int, variant string) {
 		}
 		c = rng.Intn(100)
 		k := 1 + rng.Intn(K)
+		if big {
+			// keep the queue between 7 and K keys; after a Remove or Update pop a few times so that a
+			// misplaced element surfaces at the root
+			switch {
+			case q.Len() < 8 || c < 45:
+				p := 1 + rng.Intn(P)
+				emit("Update", []int{k, p}, 0, func() int { q.Update(k, p); return resOK })
+			case c < 75:
+				// mostly a present key (an inner heap slot), sometimes an absent one
+				if rng.Intn(5) > 0 {
+					for try := 0; try < 30 && !q.Contains(k); try++ {
+						k = 1 + rng.Intn(K)
+					}
+				}
+				emit("Remove", []int{k}, 0, func() int { q.Remove(k); return resOK })
+				for j := rng.Intn(5); j > 0; j-- {
+					emit("Pop", []int{}, 0, func() int { return q.Pop() })
+				}
+			case c < 90:
+				emit("Pop", []int{}, 0, func() int { return q.Pop() })
+			default:
+				emit("Peek", []int{}, 0, func() int { return q.Peek() })
+			}
+			continue
+		}
 		switch {
 		case c < 40:
 			p := 1 + rng.Intn(6)
